@@ -40,7 +40,9 @@ class _Quoter:
             raise TypeError("Argument should be str")
         if not val:
             return ""
-        bval = val.encode("utf8", errors="ignore")
+        # lone surrogates are dropped from the output, but they still
+        # terminate a "%xx" sequence like any other non-hex character
+        bval = val.encode("utf8", errors="surrogatepass")
         ret = bytearray()
         pct = bytearray()
         safe = self._safe
@@ -99,6 +101,10 @@ class _Quoter:
 
                 continue
 
+            if ch == 0xED and idx < len(bval) and bval[idx] >= 0xA0:
+                # encoded lone surrogate (U+D800-U+DFFF), ignored
+                idx += 2
+                continue
             if self._qs and ch == ord(" "):
                 ret.append(ord("+"))
                 continue
